@@ -191,6 +191,13 @@ func c13Check(r *engine.Run, g geom.Geometry, pts []ipt, note string, rects bool
 	if p := engine.SafeCall(func() { hh = h.ConvexHull() }); p != nil || hh.AsText() != text {
 		bad("hull.notIdempotent", fmt.Sprint(p, hh.AsText()))
 	}
+	// taking a hull is a read: neither the hull just used as an operand nor the original input may change
+	if h.AsText() != text {
+		bad("hull.secondCallChangedItsOperand", h.AsText()+" was "+text)
+	}
+	if g.AsText() != c.WKT {
+		bad("hull.changedItsOperand", g.AsText())
+	}
 	if rects && len(want) >= 1 {
 		c13Rects(r, g, want, c)
 	}
@@ -211,6 +218,9 @@ func c13Rects(r *engine.Run, g geom.Geometry, hull []ipt, c hullCase) {
 		}); p != nil {
 			bad("rect."+variant+".panic", fmt.Sprint(p))
 			continue
+		}
+		if g.AsText() != c.WKT {
+			bad("rect."+variant+".changedItsOperand", g.AsText())
 		}
 		if len(hull) < 3 {
 			if rect.AsText() != g.ConvexHull().AsText() {
